@@ -42,7 +42,7 @@ PROBES = ['directory_chosen_by_the_library', 'directory_name_with_pattern_charac
           'inflight_index_after_kill', 'reuse_false_refused', 'copy_outlived_original',
           'directory_removed_on_last_release', 'directory_kept_on_release',
           'disk_full_raised_on_miss', 'disk_full_hit_still_served', 'store_error_propagated',
-          'write_lock_busy_store_retried']
+          'write_lock_busy_store_retried', 'directory_spelled_with_variable_or_tilde']
 BUDGET = {
     'quick': {'families': 440, 'wall_cap': 420, 'shrink_s': 15},
     'thorough': {'families': 6000, 'wall_cap': 5400, 'shrink_s': 40},
@@ -381,7 +381,7 @@ def gen(rng, tier, index):
 
 
 DIRNAMES = ['cache[v1]', 'run[0-9]', 'a*b', 'c?che', 'with space', '.hidden', 'sub/dir/cache',
-            'cache.d', '{x}', 'pathlib:cache']
+            'cache.d', '{x}', 'pathlib:cache', 'envvar:cache', 'home:cache', 'envvar:cache']
 
 
 def gen_life_ops(rng, n, kind):
@@ -583,8 +583,21 @@ def run_life(case):
     tmp = tempfile.mkdtemp(prefix='c11_')
     dirname = case.get('dirname') or 'cache'
     as_path = dirname.startswith('pathlib:')
+    spelled = dirname.split(':', 1)[0] if ':' in dirname else None
     dirname = dirname.split(':', 1)[-1]
     cache_dir = tmp + '/' + dirname
+    # the directory as the caller spells it: with an environment variable or '~'
+    # (both are expanded by the store underneath)
+    saved_env = {k: os.environ.get(k) for k in ('C11_CACHE_ROOT', 'HOME')}
+    given_dir = cache_dir
+    if spelled == 'envvar':
+        os.environ['C11_CACHE_ROOT'] = tmp
+        given_dir = '$C11_CACHE_ROOT/' + dirname
+        m.probes['directory_spelled_with_variable_or_tilde'] = 1
+    elif spelled == 'home':
+        os.environ['HOME'] = tmp
+        given_dir = '~/' + dirname
+        m.probes['directory_spelled_with_variable_or_tilde'] = 1
     if '/' in dirname:
         os.makedirs(os.path.dirname(cache_dir))
     if case.get('plant'):
@@ -617,7 +630,7 @@ def run_life(case):
                 nonempty = os.path.isdir(cache_dir) and len(os.listdir(cache_dir)) > 0
                 listing = sorted(os.listdir(cache_dir)) if os.path.isdir(cache_dir) else None
                 try:
-                    ds = ldc.DiskCacheDataset(up, pathlib.Path(cache_dir) if as_path else cache_dir,
+                    ds = ldc.DiskCacheDataset(up, pathlib.Path(cache_dir) if as_path else given_dir,
                                               reuse=reuse, clear=clear)
                 except RuntimeError as e:
                     if nonempty and not reuse:
@@ -732,6 +745,11 @@ def run_life(case):
         diskcache.Cache._sql = _orig_sql
         StoreFault.countdown = None
         BusyFault.countdown = None
+        for k_, v_ in saved_env.items():
+            if v_ is None:
+                os.environ.pop(k_, None)
+            else:
+                os.environ[k_] = v_
         handles.clear()
         W.set_ctx(None)
         gc.collect()
